@@ -307,7 +307,9 @@ func c18GuardYAML(c c18Case, text string) error {
 	if err := yaml.Unmarshal([]byte(text), &y); err != nil {
 		return fmt.Errorf("rendered YAML does not parse: %w\n%s", err, text)
 	}
-	bad := func(what string) error { return fmt.Errorf("rendered YAML differs from the case in %s\n%s", what, text) }
+	bad := func(what string) error {
+		return fmt.Errorf("rendered YAML differs from the case in %s\n%s", what, text)
+	}
 	if len(y.Sync) != len(c.Entries) || len(y.Creds) != 2 || !y.Defaults.Skip || y.Defaults.Parallel != c.Def.Parallel {
 		return bad("structure")
 	}
